@@ -16,8 +16,8 @@ pub struct Case {
     pub df: u8,
     pub addr: u32,
     pub payload: [u8; 11],
-    pub df_filter: Option<Vec<u8>>,
-    pub ac_filter: Option<Vec<u8>>,
+    pub df_filter: Option<Vec<u16>>,
+    pub ac_filter: Option<Vec<u16>>,
     pub via_toml: bool,
     pub undecoded: bool,
 }
@@ -40,22 +40,28 @@ pub fn frame_of(c: &Case) -> Vec<u8> {
     }
 }
 
-fn other_df(own: u8, n: u8) -> String {
-    let all = [0u8, 4, 5, 11, 16, 17, 18, 19, 20, 21, 24];
+fn other_df(own: u8, n: u16) -> String {
+    // formats that exist, and numbers no downlink format has
+    let all = [0u16, 4, 5, 11, 16, 17, 18, 19, 20, 21, 24, 32, 33, 99, 255, 1000];
     let mut k = n as usize % all.len();
-    if all[k] == own {
+    if all[k] == own as u16 {
         k = (k + 1) % all.len();
     }
     all[k].to_string()
 }
 
-fn other_addr(own: u32, n: u8) -> u32 {
-    let v = match n % 5 {
+fn other_addr(own: u32, n: u16) -> u32 {
+    // neighbours of the record's address: one bit, one byte (any value) in each position, an offset, the extremes
+    let k = ((n >> 3) & 0xff).max(1) as u32;
+    let v = match n % 8 {
         0 => own ^ 1,
         1 => own ^ 0x800000,
-        2 => own.wrapping_add(n as u32) & 0xffffff,
+        2 => own.wrapping_add(k) & 0xffffff,
         3 => 0,
-        _ => 0xffffff,
+        4 => 0xffffff,
+        5 => own ^ (k << 16),
+        6 => own ^ (k << 8),
+        _ => own ^ k,
     };
     if v == own {
         own ^ 0x10
@@ -122,8 +128,8 @@ pub fn check_case(ctx: &Ctx, c: &Case) -> Check {
 pub struct E2eCase {
     pub frames: Vec<Case>,
     /// filter lists in terms of the first frame's values (0 = its own value)
-    pub df_filter: Option<Vec<u8>>,
-    pub ac_filter: Option<Vec<u8>>,
+    pub df_filter: Option<Vec<u16>>,
+    pub ac_filter: Option<Vec<u16>>,
     pub via_config: bool,
     pub with_file: bool,
     /// with a configuration file: 0 = both filters in the file, 1 = the df filter on the command line, 2 = the
@@ -294,13 +300,16 @@ fn e2e_case() -> impl Strategy<Value = E2eCase> {
     })
 }
 
-fn filt() -> impl Strategy<Value = Option<Vec<u8>>> {
+fn filt() -> impl Strategy<Value = Option<Vec<u16>>> {
     prop_oneof![
         2 => Just(None),
         2 => Just(Some(vec![])),
         3 => Just(Some(vec![0])),
-        3 => proptest::collection::vec(1u8..=255, 1..4).prop_map(Some),
-        2 => (proptest::collection::vec(1u8..=255, 1..5), any::<proptest::sample::Index>()).prop_map(|(mut v, i)| { let k = i.index(v.len() + 1); v.insert(k, 0); Some(v) }),
+        3 => proptest::collection::vec(1u16..=4095, 1..4).prop_map(Some),
+        2 => (proptest::collection::vec(1u16..=4095, 1..5), any::<proptest::sample::Index>()).prop_map(|(mut v, i)| { let k = i.index(v.len() + 1); v.insert(k, 0); Some(v) }),
+        // long lists (a watch list of dozens of aircraft), without / with the record's own value at any position
+        1 => proptest::collection::vec(1u16..=4095, 5..48).prop_map(Some),
+        2 => (proptest::collection::vec(1u16..=4095, 5..48), any::<proptest::sample::Index>()).prop_map(|(mut v, i)| { let k = i.index(v.len() + 1); v.insert(k, 0); Some(v) }),
     ]
 }
 
@@ -310,10 +319,10 @@ fn case() -> impl Strategy<Value = Case> {
 }
 
 pub fn run(ctx: &Ctx) {
-    ctx.set_rule("for each DF in {0,4,5,11,16,17,18,20,21}: a decodable frame with generated address and payload; df filter and aircraft filter each in {absent, empty, [own value], [other values], [others with the own value at any position]}, built as structs or through TOML like the repository test; also records whose decoding failed. Oracle: Filters::is_in == (df filter absent or empty or contains the JSON df) and (aircraft filter absent or empty or contains the JSON icao24), where the JSON is serde_json::to_value(&TimedMessage); undecoded => false. Non-trivial = configuration in which exactly one filter is non-empty; distinct by hash. Plus the full cross product of DF x 5 x 5 filter shapes x struct/TOML. End to end: batches of 6-27 distinct frames (every address-carrying DF, shared addresses / DFs, frames that do not decode) are served to the real jet1090 binary as a Beast TCP source with the filters given on the command line, in a configuration file (the only way to write an empty list) or one in each; its stdout, its --output file and the stored history served by /track must contain exactly the records whose shown df / icao24 pass (completion is detected through the /all endpoint, scenarios that cannot be completed are skipped and counted).");
+    ctx.set_rule("for each DF in {0,4,5,11,16,17,18,20,21}: a decodable frame with generated address and payload; df filter and aircraft filter each in {absent, empty, [own value], [other values], [others with the own value at any position], lists of up to 48 entries} (other df values include numbers no format has: 32, 33, 99, 255, 1000; other addresses are one bit / one byte in any position / an offset away, 000000, ffffff); every single-byte neighbour of the address as the only entry, the own value at every position of lists of 1-64 entries, built as structs or through TOML like the repository test; also records whose decoding failed. Oracle: Filters::is_in == (df filter absent or empty or contains the JSON df) and (aircraft filter absent or empty or contains the JSON icao24), where the JSON is serde_json::to_value(&TimedMessage); undecoded => false. Non-trivial = configuration in which exactly one filter is non-empty; distinct by hash. Plus the full cross product of DF x 5 x 5 filter shapes x struct/TOML. End to end: batches of 6-27 distinct frames (every address-carrying DF, shared addresses / DFs, frames that do not decode) are served to the real jet1090 binary as a Beast TCP source with the filters given on the command line, in a configuration file (the only way to write an empty list) or one in each; its stdout, its --output file and the stored history served by /track must contain exactly the records whose shown df / icao24 pass (completion is detected through the /all endpoint, scenarios that cannot be completed are skipped and counted).");
     ctx.assume("what the record 'displays' is the df / icao24 of its JSON serialisation");
     // full cross product of shapes for every DF
-    let shapes: Vec<Option<Vec<u8>>> = vec![None, Some(vec![]), Some(vec![0]), Some(vec![7]), Some(vec![9, 0, 3])];
+    let shapes: Vec<Option<Vec<u16>>> = vec![None, Some(vec![]), Some(vec![0]), Some(vec![7]), Some(vec![9, 0, 3])];
     for df in DFS {
         for a in &shapes {
             for b in &shapes {
@@ -323,6 +332,28 @@ pub fn run(ctx: &Ctx) {
                         ctx.class(&format!("cross product df{df}"));
                         ctx.judge(check_case(ctx, &c));
                     }
+                }
+            }
+        }
+    }
+    // every single-byte neighbour of the record's address, in each byte position, as the only entry of the aircraft
+    // filter (must drop the record), for every DF; and lists of every length 1..=64 with the own value at every position
+    for df in DFS {
+        for pos in 5u16..=7 {
+            for k in 1u16..=255 {
+                let c = Case { df, addr: 0x4840d6, payload: [0x5a; 11], df_filter: None, ac_filter: Some(vec![(k << 3) | pos]), via_toml: false, undecoded: false };
+                ctx.class("single-byte neighbour of the address as the only filter entry");
+                ctx.judge(check_case(ctx, &c));
+            }
+        }
+        for len in 1usize..=64 {
+            for at in 0..len {
+                let mut l: Vec<u16> = (0..len as u16).map(|i| 8 * (i + 1) + 2).collect();
+                l[at] = 0;
+                for (dfl, acl) in [(None, Some(l.clone())), (Some(l.clone()), None)] {
+                    let c = Case { df, addr: 0xa0b1c2, payload: [0x33; 11], df_filter: dfl, ac_filter: acl, via_toml: len % 2 == 0, undecoded: false };
+                    ctx.class("own value at every position of lists of 1-64 entries");
+                    ctx.judge(check_case(ctx, &c));
                 }
             }
         }
@@ -362,7 +393,7 @@ pub fn replay(ctx: &Ctx, v: &Value) {
         ctx.judge(replay_e2e(ctx, &env, &sc, v, "c11-replay"));
         return;
     }
-    let list = |x: &Value| -> Option<Vec<u8>> { x.as_array().map(|a| a.iter().map(|y| y.as_u64().unwrap_or(0) as u8).collect()) };
+    let list = |x: &Value| -> Option<Vec<u16>> { x.as_array().map(|a| a.iter().map(|y| y.as_u64().unwrap_or(0) as u16).collect()) };
     let mut payload = [0u8; 11];
     if let Some(p) = v["payload"].as_str().and_then(|h| hex::decode(h).ok()) {
         for (i, b) in p.iter().take(11).enumerate() {
